@@ -6,7 +6,7 @@ from .lib import scenario, dense, tt_input, prod
 def tt_cat(E, s):
     ts, ds = [], []
     for i, (N, R) in enumerate(zip(s['Ns'], s['Rs'])):
-        x, xc = tt_input(E, 'x%d_' % i, N, R, s['dtype'])
+        x, xc = tt_input(E, 'x%d_' % i, N, R, s['dtype'], via=s.get('via'))
         ts.append(x)
         ds.append(dense(E, xc))
     dim = s['dim']
@@ -40,7 +40,7 @@ def _dense_pad(E, xd, padding, value):
 
 @scenario
 def tt_pad(E, s):
-    x, xc = tt_input(E, 'x', s['N'], s['R'], s['dtype'])
+    x, xc = tt_input(E, 'x', s['N'], s['R'], s['dtype'], via=s.get('via'))
     padding = tuple(tuple(p) for p in s['pad'])
     if s['value'] == 'sym':
         v = E.scalar('v', 'float', s['dtype'])
@@ -70,7 +70,7 @@ def ttm_pad(E, s):
     value*identity; everything else outside the original block is zero"""
     tn = E.tn
     d = len(s['N'])
-    A, Ac = tt_input(E, 'A', s['N'], s['R'], s['dtype'], s['M'])
+    A, Ac = tt_input(E, 'A', s['N'], s['R'], s['dtype'], s['M'], via=s.get('via'))
     padding = tuple(tuple(p) for p in s['pad'])
     if s['value'] == 'sym':
         v = E.scalar('v', 'float', s['dtype'])
@@ -104,7 +104,7 @@ def tt_diag(E, s):
     tn = E.tn
     d = len(s['N'])
     if s['dir'] == 'embed':
-        x, xc = tt_input(E, 'x', s['N'], s['R'], s['dtype'])
+        x, xc = tt_input(E, 'x', s['N'], s['R'], s['dtype'], via=s.get('via'))
         A = E.tt.diag(x)
         xd = dense(E, xc)
         n = prod(s['N'])
@@ -114,7 +114,7 @@ def tt_diag(E, s):
         E.true('shape', list(A.M) == list(s['N']) and list(A.N) == list(s['N']))
         E.true('dtype', all(E.dtname(c) == s['dtype'] for c in A.cores))
     else:
-        A, Ac = tt_input(E, 'A', s['N'], s['R'], s['dtype'], s['N'])
+        A, Ac = tt_input(E, 'A', s['N'], s['R'], s['dtype'], s['N'], via=s.get('via'))
         x = E.tt.diag(A)
         Ad = dense(E, Ac)
         n = prod(s['N'])
@@ -127,7 +127,7 @@ def tt_diag(E, s):
 @scenario
 def tt_mprod(E, s):
     tn = E.tn
-    x, xc = tt_input(E, 'x', s['N'], s['R'], s['dtype'])
+    x, xc = tt_input(E, 'x', s['N'], s['R'], s['dtype'], via=s.get('via'))
     modes = s['modes']
     mats = [E.tensor('F%d' % i, [s['L'][i], s['N'][m]], s['dtype']) for i, m in enumerate(modes)]
     if s.get('single'):
@@ -148,7 +148,7 @@ def tt_mprod(E, s):
 
 @scenario
 def tt_to_ttm(E, s):
-    x, xc = tt_input(E, 'x', s['N'], s['R'], s['dtype'])
+    x, xc = tt_input(E, 'x', s['N'], s['R'], s['dtype'], via=s.get('via'))
     A = x.to_ttm()
     ref = E.tn.reshape(dense(E, xc), list(s['N']) + [1] * len(s['N']))
     E.true('is_ttm', isinstance(A, E.tt.TT) and A.is_ttm)
@@ -159,7 +159,7 @@ def tt_to_ttm(E, s):
 
 @scenario
 def tt_conj_clone(E, s):
-    x, xc = tt_input(E, 'x', s['N'], s['R'], s['dtype'], s.get('M'))
+    x, xc = tt_input(E, 'x', s['N'], s['R'], s['dtype'], s.get('M'), via=s.get('via'))
     xd = dense(E, xc)
     if s['op'] == 'conj':
         z = x.conj()
